@@ -327,9 +327,15 @@ def run(ctx, deep, model_ok):
     for spec in specs:
         if impl.outcome(lambda: mk(spec))[0] != 'ok':
             continue
-        kind = rng.randrange(6)
+        kind = rng.randrange(8)
         if kind == 0:
             b = list(spec)
+        elif kind in (6, 7):
+            # the stored link has an unspecified overlap, the query names it with a specified one (direct / complement form)
+            r = impl.outcome(lambda: mk(spec).complement())
+            b = (list(core_of(r[1])) + [spec[5]]) if (kind == 7 and r[0] == 'ok') else list(spec)
+            spec = list(spec)
+            spec[4] = '*'
         elif kind in (4, 5):
             # the same adjacency asked for with an unspecified overlap, in direct or in complement form
             r = impl.outcome(lambda: mk(spec).complement())
